@@ -80,9 +80,19 @@ class LpVariable:
 
     @classmethod
     def dicts(cls, name, indices, lowBound=None, upBound=None, cat=LpContinuous, indexStart=[]):
-        if not isinstance(indices, (list, tuple, range, set, dict)):
-            indices = list(indices)
-        return {i: cls('%s_%s' % (name, str(i).replace(' ', '_')), lowBound, upBound, cat) for i in indices}
+        # same naming as PuLP 2.9: a tuple of index lists nests; '%' in the name is a format, else '_%s' per level
+        if not isinstance(indices, tuple):
+            indices = (indices,)
+        if '%' not in name:
+            name += '_%s' * len(indices)
+        index, rest = indices[0], indices[1:]
+        d = {}
+        for i in index:
+            if not rest:
+                d[i] = cls(name % tuple(list(indexStart) + [str(i)]), lowBound, upBound, cat)
+            else:
+                d[i] = cls.dicts(name, rest, lowBound, upBound, cat, list(indexStart) + [i])
+        return d
 
     dict = dicts
 
